@@ -18,10 +18,11 @@ int main() {
   unsigned char* p = static_cast<unsigned char*>(malloc(n ? n : 1));
   for (unsigned long i = 0; i < n; ++i) { unsigned b; if (scanf("%x", &b) != 1) return 2; p[i] = (unsigned char)b; }
   long long a[8]; int na = 0; while (na < 8 && scanf("%lld", &a[na]) == 1) ++na;
+  int has_before = (int)HAS;
   bool ok_before = FOK; long long before = ok_before ? (long long)READ : 0;
   bool r = WTRY;
   bool ok_after = FOK; long long after = ok_after ? (long long)READ : 0;
-  printf("ret %d ok_before %d before %lld ok_after %d after %lld\nbytes", (int)r, (int)ok_before, before, (int)ok_after, after);
+  printf("ret %d ok_before %d before %lld ok_after %d after %lld has_before %d\nbytes", (int)r, (int)ok_before, before, (int)ok_after, after, has_before);
   for (unsigned long i = 0; i < n; ++i) printf(" %02x", p[i]);
   printf("\n");
   free(p);
@@ -39,8 +40,8 @@ def replay(c):
         fid = structs.ident(c["path"][0])
         np_ = len(c["params"])
         pa = "".join(", a[%d]" % i for i in range(np_))
-        defs = "#define FOK %s__fok__%s(p, n%s)\n#define READ %s__read__%s(p, n%s)\n#define WTRY %s__wtry__%s(p, n%s, x)\n" % (
-            sid, fid, pa, sid, fid, pa, sid, fid, pa)
+        defs = "#define FOK %s__fok__%s(p, n%s)\n#define READ %s__read__%s(p, n%s)\n#define WTRY %s__wtry__%s(p, n%s, x)\n#define HAS %s__has__%s(p, n%s)\n" % (
+            sid, fid, pa, sid, fid, pa, sid, fid, pa, sid, fid, pa)
         main = os.path.join(d, "main.cc")
         with open(main, "w") as f:
             f.write('#include "%s"\n%s%s' % (os.path.basename(src), defs, MAIN))
@@ -60,13 +61,17 @@ def replay(c):
         if rc != 0:
             return True, "native run crashed: %s" % (err or out)[-300:]
         w = out.split()
-        obs = {w[i]: int(w[i + 1]) for i in range(0, 10, 2)}
+        obs = {w[i]: int(w[i + 1]) for i in range(0, 12, 2)}
         after_bytes = [int(b, 16) for b in out.split("bytes")[1].split()]
         ob = c["obligation"]
         if ob.startswith("after a successful write"):
             xm = x % (1 << 64)
             bad = obs["ret"] == 1 and not (obs["ok_after"] == 1 and (obs["after"] % (1 << 64)) == xm)
             return bad, "TryToWrite(%d) returned %d; afterwards Ok()=%d Read()=%d" % (x, obs["ret"], obs["ok_after"], obs["after"])
+        if ob.startswith("a write succeeds only"):
+            # driver encoding of has_x(): 2 present, 1 absent, 0 unknown
+            bad = obs["ret"] == 1 and obs["has_before"] != 2
+            return bad, "has_%s() = %d (2 present / 1 absent / 0 unknown), TryToWrite(%d) returned %d" % (c["path"][0], obs["has_before"], x, obs["ret"])
         if ob.startswith("a failed write"):
             bad = obs["ret"] == 0 and after_bytes != c["bytes"][:c["n"]]
             return bad, "TryToWrite(%d) returned 0 and the buffer changed: %s -> %s" % (x, c["bytes"], after_bytes)
